@@ -958,6 +958,19 @@ impl CodegenContext {
                         };
 
                         for (to_export_nx, new_parent_nx, new_path, span) in to_export {
+                            if self.symbols.export_contains_itself(
+                                to_export_nx,
+                                new_parent_nx,
+                                &new_path,
+                            ) {
+                                return Err(Diagnostic::error()
+                                    .with_message(format!(
+                                        "cannot import a symbol below itself: {}",
+                                        new_path
+                                    ))
+                                    .with_labels(vec![span.to_label()])
+                                    .into());
+                            }
                             if self.symbols.export(to_export_nx, new_parent_nx, &new_path) {
                                 if add_symbol_usages {
                                     log::trace!(
